@@ -657,7 +657,9 @@ def _hasattr(interp, args, kwargs):
         if pe.obj.cls.name == "AttributeError":
             return False
         raise
-    except Undecided:
+    except Undecided as _u:
+        import os as _o, sys as _s
+        _o.environ.get("PYVC_DBG") and print("DBGHAS", name, _u, file=_s.stderr)
         if isinstance(obj, ModuleObj):
             return False
         raise
@@ -1335,10 +1337,15 @@ def install(rt):
         for x in items:
             acc = i.call(a[0], [acc, x], {})
         return acc
-    N["functools"] = {"lru_cache": Builtin("lru_cache", lambda i, a, k: Builtin("lru", lambda i2, a2, k2: a2[0])),
+    def _lru(i, a, k):
+        # @lru_cache / @lru_cache(maxsize=...): results that are heap objects are shared between equal calls (runtime._lru_wrap)
+        if len(a) == 1 and not k and isinstance(a[0], (Closure, LambdaFn)):
+            return i.rt._lru_wrap(a[0])
+        return Builtin("lru", lambda i2, a2, k2: i2.rt._lru_wrap(a2[0]))
+    N["functools"] = {"lru_cache": Builtin("lru_cache", _lru),
                       # (functools.cache like lru_cache: the function is executed on every call - same results for the pure
                       #  functions it is meant for, and a function with effects shows them more often, never less)
-                      "cache": Builtin("cache", lambda i, a, k: a[0]),
+                      "cache": Builtin("cache", lambda i, a, k: i.rt._lru_wrap(a[0])),
                       "partial": Builtin("partial", _partial), "reduce": Builtin("reduce", _reduce),
                       "cached_property": Builtin("cached_property", lambda i, a, k: CachedProperty(a[0]))}
     N["contextlib"] = {"contextmanager": Builtin("contextmanager", lambda i, a, k: a[0]),
